@@ -57,5 +57,7 @@ void c04_unused_ExtendResp_free(KSI_ExtendResp *t);
 #undef KSI_ExtendReq_free
 #undef KSI_ExtendResp_free
 #endif
+#define KSI_createExtendRequest c04_unused_KSI_createExtendRequest
 #include "signature.c"
+#undef KSI_createExtendRequest
 #endif
